@@ -373,6 +373,9 @@ func (k *updatingKeyPair) handleAckFor(pnum packetNumber) {
 		k.phase ^= keyPhaseBit
 		k.r.update()
 		k.w.update()
+		// Do not initiate the next update right away (an update the peer initiated
+		// leaves updateAfter where it was): the peer may not have finished this one.
+		k.updateAfter = max(k.updateAfter, pnum+(1<<22))
 	}
 }
 
